@@ -180,9 +180,34 @@ Theorem c02_cycle_detector_repaired : forall (K V : Type) (deep : V -> bool) (o1
 Proof. intros K V. exact (@detect_map_all_order_free K V). Qed.
 Print Assumptions c02_cycle_detector_repaired.
 
+(** KNOWN FINDING (new, latent; class maporder:governance-blackquit-events): commitDpos runs blackQuit
+    for every black-listed peer in map order, and blackQuit's ONT transfer (governance to itself, value
+    InitPos) leaves one notification each: with two black-listed peers of different InitPos the event
+    list of the commitDpos transaction differs between nodes.  Not replayed by the driver (needs a
+    governance scenario: two peers black-listed in one round); established by reading + this model. *)
+Theorem c02_commit_dpos_black_events_refuted :
+  exists (black : N * N -> bool) (o1 o2 : list (N * N)), NoDup (map fst o1) /\ Permutation o1 o2 /\
+    commit_dpos_black_events black o1 <> commit_dpos_black_events black o2.
+Proof. exact commit_dpos_black_events_order_dependent. Qed.
+Print Assumptions c02_commit_dpos_black_events_refuted.
+
+(** outside the class: at most one black-listed peer, or all black-listed peers with one InitPos *)
+Theorem c02_commit_dpos_black_events_partial : forall (K : Type) (black : K * N -> bool) o1 o2,
+  Permutation o1 o2 ->
+  ((List.length (filter black o1) <= 1)%nat \/
+   exists v, forall kv, In kv o1 -> black kv = true -> snd kv = v) ->
+  commit_dpos_black_events black o1 = commit_dpos_black_events black o2.
+Proof.
+  intros K black o1 o2 HP [Hl|[v Hv]].
+  - exact (commit_dpos_black_events_one_black black o1 o2 HP Hl).
+  - exact (commit_dpos_black_events_same_pos black v o1 o2 HP Hv).
+Qed.
+Print Assumptions c02_commit_dpos_black_events_partial.
+
 Theorem c02_finding_classes :
   finding_classes classification =
-  ["maporder:ontfs-errors-event"; "maporder:cycle-detector-first-entry"]%string.
+  ["maporder:governance-blackquit-events"; "maporder:governance-blackquit-events";
+   "maporder:ontfs-errors-event"; "maporder:cycle-detector-first-entry"]%string.
 Proof. exact finding_classes_are. Qed.
 Print Assumptions c02_finding_classes.
 
